@@ -67,6 +67,8 @@ def no_undescribed_access(ctx):
     n_obl = 0
     for name, fi in sorted(ci.methods.items()):
         cfg = None
+        if m.is_inlined(fi):
+            continue     # a single-use helper: its statements are analysed in place of the call
         for n in body_walk(fi.node):
             # direct use of secnode.modules with a name
             is_idx = isinstance(n, ast.Subscript) and src(n.value).endswith('secnode.modules') and isinstance(n.ctx, ast.Load)
@@ -82,6 +84,9 @@ def no_undescribed_access(ctx):
                     callers = [(g, c) for g in ci.methods.values() for c in calls_in(g.node)
                                if isinstance(c.func, ast.Attribute) and dotted(c.func.value) == 'self' and c.func.attr == name]
                     okc = bool(callers)
+                    # when the helper loops over one of its own parameters, the argument of the call is what counts
+                    params = [a.arg for a in fi.node.args.args]
+                    hloops = [a for a in ancestors(n) if isinstance(a, ast.For) and isinstance(a.iter, ast.Name) and a.iter.id in params]
                     for g, c in callers:
                         cfgg = CFG(g.node, m, g.module)
                         tests = [t.id for t in cfgg.nodes if t.kind == 'test' and 'secnode.export' in src(t.ast)]
@@ -89,7 +94,16 @@ def no_undescribed_access(ctx):
                         dom = any(all(cfgg.dominates([t], i) for i in cfgg.node_of(c)) for t in tests)
                         from_export = any('secnode.export' in src(x.value) for x in body_walk(g.node)
                                           if isinstance(x, ast.Assign) and any(src(l.iter) == src(x.targets[0]) for l in loops))
-                        okc = okc and (dom or from_export)
+                        from_arg = False
+                        for hl in hloops:
+                            idx = params.index(hl.iter.id) - 1   # self is not passed explicitly
+                            arg = c.args[idx] if 0 <= idx < len(c.args) else next((k.value for k in c.keywords if k.arg == hl.iter.id), None)
+                            if isinstance(arg, ast.Name):
+                                defs = [x for x in body_walk(g.node) if isinstance(x, ast.Assign) and any(src(t) == arg.id for t in x.targets)]
+                                from_arg = bool(defs) and all(
+                                    'secnode.export' in src(x.value) or any(all(cfgg.dominates([t], i) for i in cfgg.node_of(x)) for t in tests)
+                                    for x in defs)
+                        okc = okc and (dom or from_export or from_arg)
                     ctx.check(okc, f'{fi.qualname}:direct module lookup', n, 'helper: every call site is behind an export test / iterates exported names',
                               'a helper indexes secnode.modules with a name that is not checked against secnode.export at its call sites', fi)
                     continue
